@@ -293,6 +293,32 @@ func checkDefs() map[string]*CheckDef {
 			LevelNote: "Bounds: 2 goroutines x 1 (2) operations over 2 (1) keys, <=2-4 preemptive context switches; <=3 (4) scanned components. sync.Map, sync.Mutex, sync.WaitGroup and sync/atomic are trusted models (each method one atomic step); memory model = sequential consistency + happens-before bookkeeping; preemption inside user callbacks, log.Logger, viper and Range concurrent with writers are outside. Counterexamples are replayed natively (go test -race / a barrier inside the LoadOrStoreFn callback).",
 			Technique: techDefault + "; goroutine schedules as symbolic choices; happens-before race detection in the executor", DesignRef: "DESIGN.md §3 C20"},
 	)
+	// the integration graph run (real App.initiate + run) is cheap and serves several properties
+	graphRun := func(tier string, coarse bool) RunSpec {
+		r := RunSpec{Name: "integration-graph", Pkg: app, Entry: "VerifAppGraph", MustCover: []string{"start ok", "an Init fails", "required dependency missing"}, Opts: ExecOpts{Sched: "seq", Termination: true, MaxSteps: 3000000}}
+		if coarse {
+			r.Name = "integration-graph-orders"
+			r.Opts.PermuteRange, r.Opts.PermuteCoarse = true, true
+		}
+		return r
+	}
+	for _, d := range defs {
+		switch d.ID {
+		case "C01", "C02", "C05", "C06", "C09":
+			inner := d.Runs
+			d.Runs = func(tier string) []RunSpec { return append(inner(tier), graphRun(tier, false)) }
+			d.LevelNote += " An additional integration run drives the real App.initiate+run (real registries, factory, nine processors, parallel scanning under a fixed sequential schedule) on a fixed component set with a cycle, a diamond, an interface slice, by-name, qualified and optional points; symbolic are which optional components exist, which Init fails and the registration rotation."
+		case "C10":
+			inner := d.Runs
+			d.Runs = func(tier string) []RunSpec {
+				r := inner(tier)
+				if tier == "thorough" {
+					r = append(r, graphRun(tier, true))
+				}
+				return r
+			}
+		}
+	}
 	m := map[string]*CheckDef{}
 	for _, d := range defs {
 		m[d.ID] = d
